@@ -329,8 +329,13 @@ def decl_tables(mod, ast):
   classes = {}
   for c in ast.classes:
     bases = []
+    # declaration order of the type parameters: the class statement's Generic[...] base where there
+    # is one (it is what the stub text says), else the template of the inferred class
+    tpl = [x.name.rsplit(".", 1)[-1] for x in c.template]
     for b in c.bases:
       bn = b.base_type.name if isinstance(b, pytd.GenericType) else getattr(b, "name", "")
+      if bn == "typing.Generic" and isinstance(b, pytd.GenericType):
+        tpl = [x.name.rsplit(".", 1)[-1] for x in b.parameters if isinstance(x, pytd.TypeParameter)]
       if bn.startswith(("builtins.", "typing.")) or not bn:
         continue
       bases.append(qterm(b, mod, local))
@@ -340,7 +345,7 @@ def decl_tables(mod, ast):
     attrs["_"] = WANY          # (the JSON bridge has no empty record)
     rets["_"] = WANY
     classes["%s.%s" % (mod, c.name)] = {
-        "tpl": [x.name.rsplit(".", 1)[-1] for x in c.template], "bases": bases,
+        "tpl": tpl, "bases": bases,
         "attrs": attrs, "rets": rets}
   names["_"] = WANY
   frets["_"] = WANY
